@@ -22,6 +22,7 @@ from ..model import Program, walk_own, is_self_attr, dotted
 from ..report import AnalysisError
 from .. import stagger
 from ..slices import Affine
+from ..model import canon as K
 
 MESH = "hypnotoad/core/mesh.py"
 EQ = "hypnotoad/core/equilibrium.py"
@@ -51,7 +52,7 @@ def refine_extend_refines(prog):
     f = prog.func(MESH, "_refine_extend")
     calls = [T(f.module, n) for n in walk_own(f.node) if isinstance(n, ast.Expr)]
     rets = [n for n in walk_own(f.node) if isinstance(n, ast.Return)]
-    return any(c.startswith("contour.refine(") for c in calls) and len(rets) == 1 and T(f.module, rets[0].value) == "contour"
+    return any(c.startswith(K("contour.refine(")) for c in calls) and len(rets) == 1 and T(f.module, rets[0].value) == "contour"
 
 
 def r1(prog, rep):
@@ -59,7 +60,7 @@ def r1(prog, rep):
     ok_re = refine_extend_refines(prog)
     rep.ob("R1", "the refine-and-extend helper refines the contour it returns", ok_re, MESH, "", key="typestate/_refine_extend")
     ref = prog.func(EQ, "PsiContour.refine")
-    ok = "new=self.getRefined(*args,**kwargs)" in T(ref.module, ref.node) and "self.points=new.points" in T(ref.module, ref.node)
+    ok = K("new=self.getRefined(*args,**kwargs)") in T(ref.module, ref.node) and K("self.points=new.points") in T(ref.module, ref.node)
     rep.ob("R1", "PsiContour.refine replaces the points by their refined positions", ok, ref.site(), "", key="typestate/refine")
     gr = prog.func(EQ, "PsiContour.getRefined")
     n_ref = sum(1 for n in ast.walk(gr.node) if isinstance(n, ast.Call) and T(gr.module, n.func) == "self.refinePoint")
@@ -206,13 +207,13 @@ def r2_r3(prog, rep):
                         ylog_t = stagger.first_of(ty) + stagger.YHALF[tl[1]]
                         ylog_s = stagger.first_of(sy) + stagger.YHALF[sl[1]]
                         copies.append((T(mod, tl[0]), tl[1], T(mod, sl[0]), sl[1], ylog_t, ylog_s))
-    ok = guard == 'self.connections["upper"]isnotNone'
+    ok = guard == K('self.connections["upper"]isnotNone')
     want_c = {("self.Rxy", "ylow", "up.Rxy", "ylow"), ("self.Zxy", "ylow", "up.Zxy", "ylow"), ("self.Rxy", "corners", "up.Rxy", "corners"), ("self.Zxy", "corners", "up.Zxy", "corners")}
     got_c = {(a, b, c, d) for a, b, c, d, e, g2 in copies}
     coords = all(e == Affine(0, 1) and g2 == Affine(0) for a, b, c, d, e, g2 in copies)
     rep.ob("R3", "shared-edge copy: ylow and corners at logical y=ny take the upper neighbour's values at its y=0, same location, R and Z", ok and got_c == want_c and coords, gb.site(),
            str(copies), key="edge-copy")
-    up = any(isinstance(s, ast.Assign) and T(mod, s) == 'up=self.getNeighbour("upper")' for s in ast.walk(gb.node))
+    up = any(isinstance(s, ast.Assign) and T(mod, s) == K('up=self.getNeighbour("upper")') for s in ast.walk(gb.node))
     rep.ob("R3", "the values come from the upper neighbour", up, gb.site(), "", key="edge-copy/neighbour")
 
 
@@ -222,7 +223,7 @@ def r4_r5(prog, rep):
     src = T(mod, init.node)
     # R5: targets
     cond = "self.radialIndex<self.equilibriumRegion.separatrix_radial_index"
-    ok = ("if%s:" % cond) in src and "temp_psi_vals=self.psi_vals[::-1]" in src and "else:temp_psi_vals=self.psi_vals" in src
+    ok = ("if%s:" % cond) in src and K("temp_psi_vals=self.psi_vals[::-1]") in src and K("else:temp_psi_vals=self.psi_vals") in src
     rep.ob("R5", "the follower's targets are the region's psi values, reversed for regions inside the separatrix", ok, init.site(), "", key="targets/def")
     pm = [n for n in ast.walk(init.node) if isinstance(n, ast.Call) and T(mod, n.func) == "self.parallel_map" and n.args and T(mod, n.args[0]) == "followPerpendicular"]
     ok = len(pm) == 1 and any(k.arg == "psivals" and T(mod, k.value) == "temp_psi_vals" for k in pm[0].keywords)
@@ -230,19 +231,19 @@ def r4_r5(prog, rep):
     rev = [n for n in walk_own(init.node) if isinstance(n, ast.If) and T(mod, n.test) == cond and any(isinstance(x, ast.Call) and T(mod, x.func) == "perp_points.reverse" for x in ast.walk(n))]
     rep.ob("R5", "the followed points are reversed back under exactly the same condition", len(rev) == 1, init.site(), "", key="targets/reversed-back")
     # R4 index pairing
-    loops = [n for n in walk_own(init.node) if isinstance(n, ast.For) and T(mod, n.iter) == "enumerate(perp_points_list[0])"]
-    ok = len(loops) == 1 and T(mod, loops[0].target) == "i,point" and "self.equilibriumRegion.newContourFromSelf(points=[point],psival=self.psi_vals[i])" in T(mod, loops[0])
+    loops = [n for n in walk_own(init.node) if isinstance(n, ast.For) and T(mod, n.iter) == K("enumerate(perp_points_list[0])")]
+    ok = len(loops) == 1 and T(mod, loops[0].target) == K("i,point") and K("self.equilibriumRegion.newContourFromSelf(points=[point],psival=self.psi_vals[i])") in T(mod, loops[0])
     rep.ob("R4", "contour i is started from perpendicular point i with psi value psi_vals[i]", ok, init.site(), "", key="pairing/first")
-    loops2 = [n for n in walk_own(init.node) if isinstance(n, ast.For) and T(mod, n.iter) == "perp_points_list[1:]"]
-    ok = len(loops2) == 1 and "fori,pointinenumerate(perp_points):self.contours[i].append(point)" in T(mod, loops2[0])
+    loops2 = [n for n in walk_own(init.node) if isinstance(n, ast.For) and T(mod, n.iter) == K("perp_points_list[1:]")]
+    ok = len(loops2) == 1 and K("fori,pointinenumerate(perp_points):self.contours[i].append(point)") in T(mod, loops2[0])
     rep.ob("R4", "points of every further perpendicular are appended to the contour of the same index", ok, init.site(), "", key="pairing/rest")
-    ok = "iflen(self.psi_vals)!=2*self.nx+1:raiseValueError(" in src
+    ok = K("iflen(self.psi_vals)!=2*self.nx+1:raiseValueError(") in src
     rep.ob("R4", "there is one psi value per radial point (2*nx+1)", ok, init.site(), "", key="pairing/length")
     g1 = prog.unique_func_assigning(["psixy"], MESH)
-    ok = any(isinstance(s, ast.Assign) and is_self_attr(s.targets[0], "psixy") and T(mod, s.value) == "self.meshParent.equilibrium.psi(self.Rxy,self.Zxy)" for s in walk_own(g1.node))
+    ok = any(isinstance(s, ast.Assign) and is_self_attr(s.targets[0], "psixy") and T(mod, s.value) == K("self.meshParent.equilibrium.psi(self.Rxy,self.Zxy)") for s in walk_own(g1.node))
     rep.ob("R4", "psixy is the equilibrium's psi evaluated at the written Rxy, Zxy", ok, g1.site(), "", key="psixy")
     # start points: (index, point, psi at the point)
     if pm:
         z = pm[0].args[1]
-        ok = T(mod, z) == "zip(range(len(self.equilibriumRegion)),self.equilibriumRegion,[self.equilibriumRegion.psi(*p)forpinself.equilibriumRegion],)"
+        ok = T(mod, z) == K("zip(range(len(self.equilibriumRegion)), self.equilibriumRegion, [self.equilibriumRegion.psi(*p) for p in self.equilibriumRegion])")
         rep.ob("R4", "each perpendicular starts at a point of the region's base contour with psi evaluated at that point", ok, init.site(pm[0]), "", key="pairing/start-points")
